@@ -1,18 +1,19 @@
 #!/bin/bash
 # usage: tools/mutcheck.sh <patch-file> <property> [tier] [extra check flags]
-# Applies a property-breaking patch to /repo, runs the property's check, restores /repo.
-# Prints CAUGHT / MISSED / BROKEN(exit 2).
+# Applies a property-breaking patch to a scratch worktree of /repo's HEAD (so that /repo itself
+# stays untouched while background sweeps use it), runs the property's check against that tree
+# (VERIF_REPO), removes the worktree.  Prints CAUGHT / MISSED / BROKEN(exit 2).
 P=$(readlink -f "$1"); PROP=$2; TIER=${3:-quick}; shift; shift; shift 2>/dev/null
 cd /verif || exit 2
-if [ -n "$(git -C /repo status --porcelain)" ]; then echo "/repo not clean" >&2; exit 2; fi
-git -C /repo apply "$P" || { echo "patch does not apply" >&2; exit 2; }
-./check "$PROP" "$TIER" -no-evidence "$@" > /tmp/mutcheck.$$.log 2>&1
+WT=/var/tmp/mutcheck-wt-$$
+git -C /repo worktree add -q --detach $WT HEAD || exit 2
+trap 'git -C /repo worktree remove --force $WT; rm -f /tmp/mutcheck.$$.log' EXIT
+git -C $WT apply "$P" || { echo "patch does not apply" >&2; exit 2; }
+VERIF_REPO=$WT ./check "$PROP" "$TIER" -no-evidence "$@" > /tmp/mutcheck.$$.log 2>&1
 RC=$?
-git -C /repo checkout -- . ; git -C /repo clean -fdq
 case $RC in
- 1) echo "CAUGHT $(basename $P) by $PROP: $(grep -m1 -A1 '^VIOLATION' /tmp/mutcheck.$$.log | tail -1 | cut -c1-220)";;
- 0) echo "MISSED $(basename $P) by $PROP";;
- *) echo "BROKEN $(basename $P) by $PROP (exit $RC): $(tail -3 /tmp/mutcheck.$$.log | cut -c1-300)";;
+ 1) echo "CAUGHT $(basename $(dirname $P))/$(basename $P) by $PROP: $(grep -m1 -A1 '^VIOLATION' /tmp/mutcheck.$$.log | tail -1 | cut -c1-220)";;
+ 0) echo "MISSED $(basename $(dirname $P))/$(basename $P) by $PROP";;
+ *) echo "BROKEN $(basename $(dirname $P))/$(basename $P) by $PROP (exit $RC): $(tail -3 /tmp/mutcheck.$$.log | cut -c1-300)";;
 esac
-rm -f /tmp/mutcheck.$$.log
 exit 0
